@@ -410,6 +410,35 @@ func c02Slice(c *Ctx) {
 	trees, _ := c02Counts(c.Tier)
 	k := c.Case - len(c02Panel) - trees
 	var rec spg.CharRecipe
+	if k%16 == 15 { // lengths beyond 2^12 and 2^16: no slices, a few generations whose strings must have the length asked for
+		L := []int{4097, 65537, 5000, 70001}[(k/16)%4]
+		rec = spg.CharRecipe{Length: L, Allow: spg.Digits | spg.Symbols}
+		sem := oracle.CharSemOf(rec)
+		for run := 0; run < 3; run++ {
+			var t *tape.Tape
+			if run > 0 {
+				script := make([]uint32, L)
+				for i := range script {
+					script[i] = c.R.U32()
+				}
+				script[L-1] = tape.Last
+				t = &tape.Tape{Script: script}
+			}
+			g := runGen(rec, t)
+			c.Exec(1)
+			c.Count("very_long_passwords", 1)
+			if g.Pw == nil {
+				c.Violate("generation-failed", fmt.Sprintf("recipe %s: err=%v panic=%v", descChar(rec), g.Err, g.Panic), nil)
+				return
+			}
+			if cl, msg := checkCharPassword(sem, g.Pw); cl != "" {
+				c.Violate("output-outside-valid-set", fmt.Sprintf("recipe %s: %s (%s)", descChar(rec), msg, cl), map[string]interface{}{"recipe": descChar(rec)})
+				return
+			}
+		}
+		c.Distinct("nontrivial", fmt.Sprintf("long|%d", L))
+		return
+	}
 	switch k % 10 {
 	case 8: // an alphabet larger than a byte can index
 		cs := ""
